@@ -98,12 +98,12 @@ theorem normField_fieldOf (s : Schema) (x : Snap) (ha : Spec.accepted x = true) 
       simp only [Option.bind_some]
       exact pad8_map_getElem? Spec.normLoop _ k v hv
 
-/-- **Acceptance of the two entry points compared.**  The snapshot path accepts a snapshot exactly when it
-names a path, the three list-valued fields are acceptable to their setters' Spec, and the one cross-field
-condition holds (a waveform needs sample count and rate); every other field is acceptable to both. -/
 theorem isSome_ite {α} (c : Prop) [Decidable c] (a : α) : (if c then some a else none).isSome = true ↔ c := by
   by_cases h : c <;> simp [h]
 
+/-- **Acceptance of the two entry points compared.**  The snapshot path accepts a snapshot exactly when it
+names a path, the three list-valued fields are acceptable to their setters' Spec, and the one cross-field
+condition holds (a waveform needs sample count and rate); every other field is acceptable to both. -/
 theorem accepted_iff_fields (x : Snap) :
     Spec.accepted x = true ↔
       (x.relativePath.isSome = true ∧ (Spec.normField .hotCues x.hotCues).isSome = true ∧
